@@ -11,6 +11,7 @@
 (*   frame  r lane kind [v]         remote r received linked|event|synced|  *)
 (*                                  unlinked; v = body as integer, or       *)
 (*                                  bad = TRUE when it is not an integer    *)
+(*   stopping                       the agent is being stopped               *)
 (*   gone   r                       remote r stopped reading                *)
 (*   quiescent drained:[r...]       nothing in flight; these were drained   *)
 (* H[l] is the sequence of values lane l held.  Each event received by a    *)
@@ -25,12 +26,18 @@ CONSTANTS VLanes, Remotes
 
 Rec == ndJsonDeserialize(IOEnv.TRACE)
 
-VARIABLES i, H, open, pend, lastPos, lastV, hasV, changed, synced, alive,
+VARIABLES i, H, open, lastPos, lastV, hasV, changed, synced, alive,
           win, adm,         \* C03: an unanswered sync request; values admissible at synced
-          unl,              \* an unlink request was sent since the link was opened
-          nmin              \* a link / sync request was sent after that unlink request while the old link was still
-                            \* open in the log (its unlinked frame not read yet): position of H then (0 = none)
-vars == <<i, H, open, pend, lastPos, lastV, hasV, changed, synced, alive, win, adm, unl, nmin>>
+          \* What the log does not show: how far the runtime has got with r's requests.  link / unlink requests go to
+          \* the write task in order; a sync request goes to the lane and links r (implicitly) whenever the lane's
+          \* answer reaches the write task - before or after later link / unlink requests of r.  TLC infers it.
+          cq,       \* [r][l] link / unlink requests not yet processed: Seq([op, pos]); pos = Len(H[l]) when sent
+          sq,       \* [r][l] sync requests whose synced has not been read: Seq([pos])
+          rlk,      \* [r][l] the runtime holds r linked
+          fq,       \* [r][l] linked / unlinked frames the runtime has produced and r has not read: Seq([k, pos])
+          stopping  \* the agent is being stopped (every link is closed without having been asked)
+hid == <<cq, sq, rlk, fq>>
+vars == <<i, H, open, lastPos, lastV, hasV, changed, synced, alive, win, adm, cq, sq, rlk, fq, stopping>>
 
 Has(e, f) == f \in DOMAIN e
 Max(a, b) == IF a > b THEN a ELSE b
@@ -39,22 +46,47 @@ Cur(l) == H[l][Len(H[l])]
 
 InitState(vals) ==
     /\ H = [l \in VLanes |-> <<vals[l]>>]
-    /\ open = RL(FALSE) /\ pend = RL(FALSE) /\ lastPos = RL(1) /\ lastV = RL(0) /\ hasV = RL(FALSE)
+    /\ open = RL(FALSE) /\ lastPos = RL(1) /\ lastV = RL(0) /\ hasV = RL(FALSE)
     /\ changed = RL(FALSE) /\ synced = RL(FALSE) /\ alive = [r \in Remotes |-> TRUE]
-    /\ win = RL(0) /\ adm = RL({}) /\ unl = RL(FALSE) /\ nmin = RL(0)
+    /\ win = RL(0) /\ adm = RL({})
+    /\ cq = RL(<<>>) /\ sq = RL(<<>>) /\ rlk = RL(FALSE) /\ fq = RL(<<>>) /\ stopping = FALSE
 
 TraceInit == i = 1 /\ InitState([l \in VLanes |-> 0]) /\ TLCSet(1, 1)
 
 ResetTo(vals) ==
     /\ H' = [l \in VLanes |-> <<vals[l]>>]
-    /\ open' = RL(FALSE) /\ pend' = RL(FALSE) /\ lastPos' = RL(1) /\ lastV' = RL(0) /\ hasV' = RL(FALSE)
+    /\ open' = RL(FALSE) /\ lastPos' = RL(1) /\ lastV' = RL(0) /\ hasV' = RL(FALSE)
     /\ changed' = RL(FALSE) /\ synced' = RL(FALSE) /\ alive' = [r \in Remotes |-> TRUE]
-    /\ win' = RL(0) /\ adm' = RL({}) /\ unl' = RL(FALSE) /\ nmin' = RL(0)
+    /\ win' = RL(0) /\ adm' = RL({})
+    /\ cq' = RL(<<>>) /\ sq' = RL(<<>>) /\ rlk' = RL(FALSE) /\ fq' = RL(<<>>) /\ stopping' = FALSE
 
 \* earliest position p >= from with H[l][p] = v (0 if none)
 Match(l, from, v) ==
     LET S == {p \in from..Len(H[l]) : H[l][p] = v} IN
     IF S = {} THEN 0 ELSE CHOOSE p \in S : \A q \in S : p <= q
+
+(***************************************************************************)
+(* Steps of the runtime that the log does not show.                        *)
+(***************************************************************************)
+\* the write task takes r's next link / unlink request: link always answers linked; unlink answers unlinked
+\* only if r is linked
+HCoord(r, l) ==
+    /\ cq[r][l] # <<>>
+    /\ LET h == Head(cq[r][l]) IN
+       /\ cq' = [cq EXCEPT ![r][l] = Tail(@)]
+       /\ IF h.op = "link"
+            THEN /\ rlk' = [rlk EXCEPT ![r][l] = TRUE]
+                 /\ fq' = [fq EXCEPT ![r][l] = Append(@, [k |-> "linked", pos |-> h.pos])]
+            ELSE /\ rlk' = [rlk EXCEPT ![r][l] = FALSE]
+                 /\ fq' = IF rlk[r][l] THEN [fq EXCEPT ![r][l] = Append(@, [k |-> "unlinked", pos |-> 0])] ELSE fq
+    /\ UNCHANGED sq
+\* the answer of the lane to a sync request of r reaches the write task while r is not linked: r is linked
+\* (the oldest outstanding sync gives the weakest bound on where the lane was)
+HSync(r, l) ==
+    /\ sq[r][l] # <<>> /\ ~rlk[r][l]
+    /\ rlk' = [rlk EXCEPT ![r][l] = TRUE]
+    /\ fq' = [fq EXCEPT ![r][l] = Append(@, [k |-> "linked", pos |-> Head(sq[r][l]).pos])]
+    /\ UNCHANGED <<cq, sq>>
 
 Step(e) ==
     \/ /\ e.e = "reset" /\ ResetTo([l \in VLanes |-> 0])
@@ -65,40 +97,42 @@ Step(e) ==
                         IF l = e.lane /\ open[r][l] THEN TRUE ELSE changed[r][l]]]
        /\ adm' = [r \in Remotes |-> [l \in VLanes |->
                         IF l = e.lane /\ win[r][l] > 0 THEN adm[r][l] \cup {e.v} ELSE adm[r][l]]]
-       /\ UNCHANGED <<open, pend, lastPos, lastV, hasV, synced, alive, win, unl, nmin>>
-    \/ /\ e.e = "req" /\ e.lane \in VLanes /\ e.op \in {"link", "sync"}
-       /\ LET r == e.r  l == e.lane  fresh == ~open[r][l] /\ ~pend[r][l] IN
-          /\ pend' = [pend EXCEPT ![r][l] = TRUE]
-          /\ lastPos' = IF fresh THEN [lastPos EXCEPT ![r][l] = Len(H[l])] ELSE lastPos
-          /\ hasV' = IF fresh THEN [hasV EXCEPT ![r][l] = FALSE] ELSE hasV
-          /\ changed' = IF fresh THEN [changed EXCEPT ![r][l] = FALSE] ELSE changed
-          /\ synced' = IF fresh THEN [synced EXCEPT ![r][l] = FALSE] ELSE synced
-          /\ IF e.op = "sync"
-               THEN /\ win' = [win EXCEPT ![r][l] = @ + 1]
-                    /\ adm' = [adm EXCEPT ![r][l] = IF win[r][l] = 0 THEN {Cur(l)} ELSE @]
-               ELSE UNCHANGED <<win, adm>>
-          \* a request sent after an unlink request, while the old link is still open in the log, starts the
-          \* NEXT episode: remember where the lane was
-          /\ nmin' = IF open[r][l] /\ unl[r][l] /\ nmin[r][l] = 0 THEN [nmin EXCEPT ![r][l] = Len(H[l])] ELSE nmin
-       /\ UNCHANGED <<H, open, lastV, alive, unl>>
+       /\ UNCHANGED <<open, lastPos, lastV, hasV, synced, alive, win, hid, stopping>>
+    \/ /\ e.e = "req" /\ e.lane \in VLanes /\ e.op = "link"
+       /\ cq' = [cq EXCEPT ![e.r][e.lane] = Append(@, [op |-> "link", pos |-> Len(H[e.lane])])]
+       /\ UNCHANGED <<H, open, lastPos, lastV, hasV, changed, synced, alive, win, adm, sq, rlk, fq, stopping>>
+    \/ /\ e.e = "req" /\ e.lane \in VLanes /\ e.op = "sync"
+       /\ LET r == e.r  l == e.lane IN
+          /\ sq' = [sq EXCEPT ![r][l] = Append(@, [pos |-> Len(H[l])])]
+          /\ win' = [win EXCEPT ![r][l] = @ + 1]
+          /\ adm' = [adm EXCEPT ![r][l] = IF win[r][l] = 0 THEN {Cur(l)} ELSE @]
+       /\ UNCHANGED <<H, open, lastPos, lastV, hasV, changed, synced, alive, cq, rlk, fq, stopping>>
     \/ /\ e.e = "req" /\ e.lane \in VLanes /\ e.op = "unlink"
-       /\ unl' = [unl EXCEPT ![e.r][e.lane] = TRUE]
-       /\ UNCHANGED <<H, open, pend, lastPos, lastV, hasV, changed, synced, alive, win, adm, nmin>>
+       /\ cq' = [cq EXCEPT ![e.r][e.lane] = Append(@, [op |-> "unlink", pos |-> 0])]
+       /\ UNCHANGED <<H, open, lastPos, lastV, hasV, changed, synced, alive, win, adm, sq, rlk, fq, stopping>>
     \/ /\ e.e = "frame" /\ e.lane \in VLanes /\ e.kind = "linked"
-       /\ open' = [open EXCEPT ![e.r][e.lane] = TRUE]
-       /\ changed' = IF open[e.r][e.lane] THEN changed ELSE [changed EXCEPT ![e.r][e.lane] = FALSE]
-       /\ UNCHANGED <<H, pend, lastPos, lastV, hasV, synced, alive, win, adm, unl, nmin>>
+       /\ LET r == e.r  l == e.lane IN
+          /\ fq[r][l] # <<>> /\ Head(fq[r][l]).k = "linked"
+          /\ fq' = [fq EXCEPT ![r][l] = Tail(@)]
+          /\ open' = [open EXCEPT ![r][l] = TRUE]
+          /\ IF open[r][l] THEN UNCHANGED <<lastPos, hasV, changed, synced>>
+             ELSE \* a new episode: nothing older than what the lane held when the request that opened it was sent
+                  /\ lastPos' = [lastPos EXCEPT ![r][l] = Max(@, Head(fq[r][l]).pos)]
+                  /\ hasV' = [hasV EXCEPT ![r][l] = FALSE]
+                  /\ changed' = [changed EXCEPT ![r][l] = FALSE]
+                  /\ synced' = [synced EXCEPT ![r][l] = FALSE]
+       /\ UNCHANGED <<H, lastV, alive, win, adm, cq, sq, rlk, stopping>>
     \/ /\ e.e = "frame" /\ e.lane \in VLanes /\ e.kind = "event"
        /\ LET r == e.r  l == e.lane IN
           IF ~open[r][l]
-            THEN UNCHANGED <<lastPos, lastV, hasV, unl, nmin>>     \* outside a link: C04's business, not C01's
+            THEN UNCHANGED <<lastPos, lastV, hasV>>     \* outside a link: C04's business, not C01's
             ELSE /\ ~Has(e, "bad")                      \* never invented: an integer the lane held ...
                  /\ LET p == Match(l, lastPos[r][l], e.v) IN
                     /\ p > 0                            \* ... at or after the previous one (never reordered)
                     /\ lastPos' = [lastPos EXCEPT ![r][l] = p]
                  /\ lastV' = [lastV EXCEPT ![r][l] = e.v]
                  /\ hasV' = [hasV EXCEPT ![r][l] = TRUE]
-       /\ UNCHANGED <<H, open, pend, changed, synced, alive, win, adm, unl, nmin>>
+       /\ UNCHANGED <<H, open, changed, synced, alive, win, adm, hid, stopping>>
     \/ /\ e.e = "frame" /\ e.lane \in VLanes /\ e.kind = "synced"
        /\ LET r == e.r  l == e.lane IN
           /\ (open[r][l] /\ win[r][l] > 0) =>
@@ -107,24 +141,31 @@ Step(e) ==
           /\ synced' = [synced EXCEPT ![r][l] = TRUE]
           /\ win' = [win EXCEPT ![r][l] = IF @ > 0 THEN @ - 1 ELSE 0]
           /\ adm' = adm
-       /\ UNCHANGED <<H, open, pend, lastPos, lastV, hasV, changed, alive, unl, nmin>>
+          /\ sq' = [sq EXCEPT ![r][l] = IF @ # <<>> THEN Tail(@) ELSE @]     \* the oldest outstanding sync is answered
+       /\ UNCHANGED <<H, open, lastPos, lastV, hasV, changed, alive, cq, rlk, fq, stopping>>
     \/ /\ e.e = "frame" /\ e.lane \in VLanes /\ e.kind = "unlinked"
        \* the episode is over: its obligations end with it (positions stay monotone across episodes)
-       /\ open' = [open EXCEPT ![e.r][e.lane] = FALSE]
-       /\ pend' = [pend EXCEPT ![e.r][e.lane] = (nmin[e.r][e.lane] > 0)]
-       /\ lastPos' = IF nmin[e.r][e.lane] > 0 THEN [lastPos EXCEPT ![e.r][e.lane] = IF @ > nmin[e.r][e.lane] THEN @ ELSE nmin[e.r][e.lane]]
-                      ELSE lastPos
-       /\ unl' = [unl EXCEPT ![e.r][e.lane] = FALSE]
-       /\ nmin' = [nmin EXCEPT ![e.r][e.lane] = 0]
-       \* (a sync requested after the unlink request is answered after this frame: its window stays open)
-       /\ win' = win
-       /\ hasV' = [hasV EXCEPT ![e.r][e.lane] = FALSE]
-       /\ changed' = [changed EXCEPT ![e.r][e.lane] = FALSE]
-       /\ synced' = [synced EXCEPT ![e.r][e.lane] = FALSE]
-       /\ UNCHANGED <<H, lastV, alive, adm>>
+       /\ LET r == e.r  l == e.lane IN
+          /\ IF fq[r][l] # <<>>
+               THEN /\ Head(fq[r][l]).k = "unlinked"              \* the answer to an unlink request
+                    /\ fq' = [fq EXCEPT ![r][l] = Tail(@)]
+                    /\ UNCHANGED <<cq, sq, rlk>>
+               ELSE /\ stopping                                   \* the agent stops: every link is closed
+                    /\ cq' = [cq EXCEPT ![r][l] = <<>>] /\ sq' = [sq EXCEPT ![r][l] = <<>>]
+                    /\ rlk' = [rlk EXCEPT ![r][l] = FALSE] /\ UNCHANGED fq
+          /\ open' = [open EXCEPT ![r][l] = FALSE]
+          \* (a sync requested after the unlink request is answered after this frame: its window stays open)
+          /\ win' = win
+          /\ hasV' = [hasV EXCEPT ![r][l] = FALSE]
+          /\ changed' = [changed EXCEPT ![r][l] = FALSE]
+          /\ synced' = [synced EXCEPT ![r][l] = FALSE]
+       /\ UNCHANGED <<H, lastPos, lastV, alive, adm, stopping>>
+    \/ /\ e.e = "stopping"
+       /\ stopping' = TRUE
+       /\ UNCHANGED <<H, open, lastPos, lastV, hasV, changed, synced, alive, win, adm, hid>>
     \/ /\ e.e = "gone"
        /\ alive' = [alive EXCEPT ![e.r] = FALSE]
-       /\ UNCHANGED <<H, open, pend, lastPos, lastV, hasV, changed, synced, win, adm, unl, nmin>>
+       /\ UNCHANGED <<H, open, lastPos, lastV, hasV, changed, synced, win, adm, hid, stopping>>
     \/ /\ e.e = "quiescent"
        \* never stale: a drained, linked remote that saw the lane change after its link, or synced,
        \* holds the lane's current value
@@ -132,12 +173,24 @@ Step(e) ==
              LET r == e.drained[k] IN
              (alive[r] /\ open[r][l] /\ (changed[r][l] \/ synced[r][l]))
                 => (hasV[r][l] /\ lastV[r][l] = Cur(l))
-       /\ UNCHANGED <<H, open, pend, lastPos, lastV, hasV, changed, synced, alive, win, adm, unl, nmin>>
+       \* nothing is in flight: every request of a drained remote has been dealt with
+       /\ LET D == {e.drained[x] : x \in 1..Len(e.drained)} IN
+          /\ cq' = [r \in Remotes |-> IF r \in D THEN [l \in VLanes |-> <<>>] ELSE cq[r]]
+          /\ sq' = [r \in Remotes |-> IF r \in D THEN [l \in VLanes |-> <<>>] ELSE sq[r]]
+          /\ fq' = [r \in Remotes |-> IF r \in D THEN [l \in VLanes |-> <<>>] ELSE fq[r]]
+          /\ rlk' = [r \in Remotes |-> IF r \in D THEN open[r] ELSE rlk[r]]
+       /\ UNCHANGED <<H, open, lastPos, lastV, hasV, changed, synced, alive, win, adm, stopping>>
 
-TraceNext == /\ i <= Len(Rec)
-             /\ Step(Rec[i])
-             /\ i' = i + 1
-             /\ TLCSet(1, Max(TLCGet(1), i + 1))
+TraceNext ==
+    /\ i <= Len(Rec)
+    /\ LET e == Rec[i] IN
+       \/ \* a linked / unlinked frame that the runtime has yet to produce: it takes r's next request(s)
+          /\ e.e = "frame" /\ e.lane \in VLanes /\ e.kind \in {"linked", "unlinked"} /\ fq[e.r][e.lane] = <<>>
+          /\ (HCoord(e.r, e.lane) \/ HSync(e.r, e.lane))
+          /\ UNCHANGED <<i, H, open, lastPos, lastV, hasV, changed, synced, alive, win, adm, stopping>>
+       \/ /\ Step(e)
+          /\ i' = i + 1
+          /\ TLCSet(1, Max(TLCGet(1), i + 1))
 
 TraceSpec == TraceInit /\ [][TraceNext]_vars
 
